@@ -47,9 +47,10 @@ FINDINGS = {
            "a stateful function (or capture-free stateful lambda) called directly at top level writes its state into the first cells of "
            "dsp's state storage, so dsp does not start from zero state"),
     "X7": (("vm",), "generator rule R7", "VM SIGSEGV on a well-typed program (corpus/lmmx/findings/X7_vm_sigsegv.mmm)"),
-    "V1": (("vm",), "syntactic V1: a lambda in a named function mentions a parameter that follows a tuple / record parameter",
-           "VM: a closure that captures a parameter placed after a multi-word (tuple / record) parameter can read a word of the "
-           "aggregate instead (fn f(a:(float,float), b:float){ (|p, q| 0.0)(5.0, 0.0) + (|p, q| b)(0.0, 0.0) } gives a.1)"),
+    "V1": ((), "REPAIRED by /repo a58c230 (`fixed:` in KNOWN_FINDINGS.txt); no longer exempt (the class predicate lmmx.v1_class is still "
+           "computed for the coverage statistics; corpus case V1_capture_after_aggregate_parameter is recorded as following the reference)",
+           "VM: a closure that captured a parameter placed after a multi-word (tuple / record) parameter could read a word of the "
+           "aggregate instead (fn f(a:(float,float), b:float){ (|p, q| 0.0)(5.0, 0.0) + (|p, q| b)(0.0, 0.0) } gave a.1)"),
     "W5": ((), "REPAIRED by /repo 5e67a0a while this part was built (no longer exempt; corpus case fixed_W5_capture_pattern_variable)",
            "WASM: a closure capturing a pattern-bound local variable read the bits of a pointer"),
     "PROJ": (("wasm",), "syntactic PROJ: projection directly in a comparison / if condition / if arm value / result of a function using self",
@@ -60,47 +61,43 @@ FINDINGS = {
     "W9": (("wasm",), "syntactic W9: a function / lambda returns a closure over one of its let-bound locals and can run more than once",
            "WASM: closures capture the ADDRESS of let-bound cells and every call of a function uses the same cells: two counters made by "
            "one maker share their count"),
-    "M1": (("vm", "wasm"), "syntactic M1 (lmmx.match_selection): on some scrutinee value the compiler's arm selection differs from first-match order",
-           "match does not take the FIRST arm that matches: a `_` arm is the default wherever it stands (match x { _ => a, 0 => b } gives b "
-           "for 0) and tuple patterns are compiled to a decision tree that tries the arms with a literal / constructor in a column "
-           "before the arms with `_` there (match (x, y) { (_, _) => a, (0, 0) => b } gives b for (0, 0))"),
+    "M1": ((), "REPAIRED (fix: a match takes the first arm that matches); no longer exempt: corpus cases fixed_M1_*, and the generator puts a `_` / "
+           "general arm before other arms in one match of three",
+           "match did not take the FIRST arm that matches: a `_` arm was the default wherever it stood and the decision tree of a tuple match "
+           "tried the arms with a literal / constructor in a column before the arms with `_` there"),
     "M2": (("vm", "wasm"), "syntactic M2: a stateful arm of a tuple match that the decision tree compiles more than once",
            "one textual call site, several states: an arm of a tuple match that applies in several branches of the decision tree is "
            "compiled once per branch and every copy has its own state cells (fn cnt(i){self+i}  match (now % 3.0, 1.0) { (0, 0) => 100.0, "
            "(1, _) => 200.0, _ => cnt(1.0) } counts 1 1 2 2 3 3 instead of 1 2 3 4 5 6)"),
-    "M3": (("vm",), "syntactic M3: two arms of a match with the same literal / constructor",
-           "VM: of two arms with the same literal (or constructor) the LAST one is taken (the jump table is overwritten); WASM takes the first"),
+    "M3": ((), "REPAIRED (fix: of two match arms with the same literal or constructor the VM takes the first); no longer exempt: corpus case "
+           "fixed_M3_duplicate_literal_arm, duplicates are generated",
+           "VM: of two arms with the same literal (or constructor) the LAST one was taken (the jump table was overwritten); WASM took the first"),
     "F66": (("vm",), "dynamic (C03/F66): the VM output differs, WASM follows the reference, and the program's bytecode reads an upvalue into a register "
             "above everything its frame has certainly written (lmmx.upvalue_read_above_frame on the bc_dump of the program)",
             "VM: GetUpValue of an OPEN upvalue into a register above the stack top grows the value stack while a slice into the old "
             "buffer is held: garbage at the first sample (fn dsp(x:float){ let a = 1.0  (0.0 |> (|y| { let t = (y, x, a)  match a { 2 => "
             "t.2 + 0.0, 0 => x, _ => x } })) } plays 6.9e-310 for x = 5); recorded as C03/F66 by the bytecode part, allocator dependent"),
-    "W10": (("vm", "wasm"), "syntactic W10: a lambda whose result is its own `self` of a sum type (directly or through a variable let-bound to it)",
-            "type T = K0 | K1((float, float)) | K2(float)  fn mk(){ |x| { self } }  let c = mk()  fn dsp(){ match c(1.0) { K0 => 1.0, K1(_) => 2.0, "
-            "K2(v) => 3.0 } }: the VM plays 0.0 (no arm's value; reference 1.0: the zero-initialised self is K0), WASM emits an invalid module "
-            "(`type mismatch: expected i64 but nothing on stack`); a named function with the same body is right on both"),
-    "M5": (("vm", "wasm"), "syntactic M5: a constructor pattern inside a tuple pattern whose payload pattern nests a tuple pattern with variables",
-           "match (1.0, A((7.0, (8.0, 9.0)))) { (_, A((x, (y, z)))) => x * 100.0 + y * 10.0 + z, _ => 0.0 } gives 788: the decision tree "
-           "binds every variable of the nested pattern to the first component (mirgen.rs collect_bindings_from_payload overwrites the "
-           "element index); the same pattern in a match on the sum value alone gives 789"),
-    "W11": (("wasm",), "syntactic W11: a lambda mentions a variable bound by a constructor pattern inside a tuple pattern",
-            "WASM: match (A(7.0), 1.0) { (A(x), _) => (6.0 |> (|q| { x })), _ => 0.0 } plays 5.18e-321 (the address of the payload): "
-            "the decision tree binds the variable without a cell; the relative of the repaired W5 / C01 F64w"),
-    "W12": (("wasm",), "syntactic W12: in a lambda, a variable bound by a pattern on the lambda's wide `self` is directly a component of a tuple / record literal",
-            "WASM: fn mk(){ | | { let (a, b) = self  (a, b) } }: a closure that later captures a component of the result reads an address "
-            "(5.3e-321); with (a + 0.0, b + 0.0), or in a named function, the value is right"),
-    "S1": (("vm", "wasm"), "not generated (record patterns on `self` are printed in canonical order; text witness corpus/lmmx/findings/S1_record_pattern_on_self.mmm)",
-           "a record pattern that takes `self` apart binds its fields by POSITION, not by name: fn f(x:float) -> {fa:float, fc:float}{ let {fc = q, "
-           "fa = p} = self  {fa = p + x, fc = q + p} } gives q the word of fa and p the word of fc (f(1.0): 100 101 202 instead of 100 201 303): "
-           "the meaning depends on the order in which the fields of the pattern are written"),
-    "W13": (("wasm",), "syntactic W13: a function with a function-typed parameter returns a stateful lambda that calls the parameter, and is used at least twice",
-            "WASM: an instance of a stateful lambda that calls ANOTHER instance of the same lambda loses the inner instance's state: "
-            "fn mk(g:(float)->float){ |x| { g(3.0) + self + 1.0 } }  let a = mk(|y| { 0.0 })  let b = mk(a)  fn dsp(){ b(0.0) } plays 2 4 6 "
-            "(VM and the reference: 2 5 9)"),
-    "MG": (("vm", "wasm"), "syntactic MG: a match with a payload-binding constructor pattern evaluated at global scope (top-level `let` initialiser)",
-           "type T = A((float, float)) | B((float, float, float))  let v = match A((1.0, 6.0)) { B((a, b, c)) => a, _ => 4.0 }: WASM gives 0.0 "
-           "(VM and the reference 4.0); when the bound variable is used in an `if`, a call or a lambda the VM does not compile "
-           "(`value reg(N) not found`); inside a function the same match works on both backends"),
+    "W10": ((), "REPAIRED (fix: match patterns are checked against the type of the scrutinee: the scrutinee is unified with the sum type the "
+            "patterns ask for); no longer exempt: corpus cases fixed_W10_*",
+            "a lambda whose result is its own sum-typed `self`: the VM played 0.0 (no arm taken), WASM emitted an invalid module"),
+    "M5": ((), "REPAIRED (fix: a nested tuple pattern in a constructor payload of a tuple match binds the right components); no longer exempt: "
+           "corpus case fixed_M5_*, generated",
+           "match (1.0, A((7.0, (8.0, 9.0)))) { (_, A((x, (y, z)))) => x * 100.0 + y * 10.0 + z, _ => 0.0 } gave 788"),
+    "W11": ((), "REPAIRED (fix: WASM closures capture the payload binder of a constructor pattern in a tuple match through its address); no longer "
+            "exempt: corpus case fixed_W11_*, generated; what is left is the W9 class (lmmx.tuple_match_binder_escapes: the closure ESCAPES)",
+            "WASM: match (A(7.0), 1.0) { (A(x), _) => (6.0 |> (|q| { x })), _ => 0.0 } played 5.18e-321 (the address of the payload)"),
+    "W12": ((), "REPAIRED (fix: WASM closures capture a variable of unresolved type like a number, not its address); no longer exempt: corpus case "
+            "fixed_W12_*, generated",
+            "WASM: fn mk(){ | | { let (a, b) = self  (a, b) } }: a closure that later captured a component of the result read an address"),
+    "S1": ((), "REPAIRED (fix: a record pattern binds its fields by name when the record's type is inferred from the pattern); text witness "
+           "corpus/lmmx/fixed/S1_record_pattern_on_self.mmm must give the reference values; record patterns on `self` are printed shuffled",
+           "a record pattern that takes `self` apart bound its fields by POSITION, not by name"),
+    "W13": ((), "REPAIRED (fix: WASM: `self` survives a nested call of the same function); no longer exempt: corpus case fixed_W13_*",
+            "WASM: an instance of a stateful lambda that calls ANOTHER instance of the same lambda lost the inner instance's state (2 4 6 for 2 5 9)"),
+    "MG": (("vm", "wasm"), "syntactic MG (narrowed): a lambda in an arm of a match evaluated at global scope mentions a payload binder of the arm's pattern",
+           "REPAIRED for binders read by the arm itself (fix: a variable bound by a match pattern in a top-level statement is read through its "
+           "pointer; corpus cases fixed_MG_*).  Left: type T = A(float) | C  let v = match A(2.0) { A(x) => (1.0 |> (|y| { x + y })), _ => 0.0 }: the "
+           "lambda is compiled as a function of its own and takes the binder for a register of the global initialiser"),
     "R5": ((), "not modelled: generator rule R5",
            "a capture-free lambda is a function constant for the compiler (direct calls, per-call-site state, like a named function); the "
            "reference models every lambda as an instance, so capture-free STATEFUL lambdas are outside the compared fragment"),
@@ -268,12 +265,16 @@ def run_corpus(ck, sides, viol, cov):
                              {"source": src, "n_samples": len(c["rows"]), "inputs": c["rows"], "reference_outputs": c["ref"], be: now}))
             elif c[be] != "ref":
                 (cov["corpus_findings_reproduced"] if now != "ref" else cov["corpus_findings_changed"]).append("%s:%s" % (c["name"], be))
-    # text witnesses (constructs outside the AST): expected outputs in the header
-    d = os.path.join(CORPUS, "findings")
-    for fn in sorted(os.listdir(d)) if os.path.isdir(d) else []:
-        if not fn.endswith(".mmm"):
-            continue
-        txt = open(os.path.join(d, fn)).read()
+    # text witnesses (constructs outside the AST): expected outputs in the header.  findings/: the recorded deviation of a listed
+    # finding (a change is noted);  fixed/: a REPAIRED defect, the header holds the values of the reference semantics on both
+    # backends and any other answer is a violation
+    texts = []
+    for sub in ("fixed", "findings"):
+        d = os.path.join(CORPUS, sub)
+        texts += [(sub, os.path.join(d, fn), fn) for fn in (sorted(os.listdir(d)) if os.path.isdir(d) else []) if fn.endswith(".mmm")]
+    cov["corpus_fixed_text_witnesses_ok"] = []
+    for sub, path, fn in texts:
+        txt = open(path).read()
         hdr = {}
         for line in txt.split("\n"):
             if line.startswith("// expect-"):
@@ -289,6 +290,14 @@ def run_corpus(ck, sides, viol, cov):
             b = lmmx.backend_rows(res.get(be), n) if 'crash' not in res else ('crash', res['crash'])
             got = b[1] if b[0] == 'ok' else [b[0]]
             same = (got == hdr[be]) if b[0] == 'ok' else (hdr[be] == [b[0]])
+            if sub == "fixed":
+                if same:
+                    cov["corpus_fixed_text_witnesses_ok"].append("%s:%s" % (fn, be))
+                else:
+                    viol.append(("closures: a repaired defect is back: text witness corpus/lmmx/fixed/%s: %s no longer gives the values of the "
+                                 "reference semantics" % (fn, be),
+                                 {"source": txt, "n_samples": n, "reference_outputs": hdr[be], be: got if b[0] == 'ok' else [str(x) for x in b]}))
+                continue
             (cov["corpus_findings_reproduced"] if same else cov["corpus_findings_changed"]).append("%s:%s" % (fn, be))
 
 
